@@ -12,6 +12,8 @@ import Bng.Model.Antispoof
     unbind m=<mac>                    => ok [b-=<key>]
     range <ip4>/<len>                 => ok [r=<key>:<val>] [r-=<key>]
     rangemask <ip4> <mask4>           => ok [r=…] | err IPv4_prefix_mask_required
+    range16 <ip4>/<len>               => as range; the address is passed in its 16-byte form (::ffff:a.b.c.d)
+    range16m <ip4>/<len>              => err IPv4_prefix_mask_required (16-byte address with a 128-bit mask)
     (bind/bind6/unbind with a MAC that is not 6 bytes => err invalid_MAC_address)
     rawbind <key> <val>               => ok | err size
     rawcfg <val>                      => ok | err size
@@ -346,6 +348,26 @@ def step (st : St) (toks : List String) (impl : String) : St × LineResult :=
     | none => (st, { modelObs := "badop" })
   | _ => (st, { modelObs := "badop" })
 
-def component : Component := { σ := St, init := {}, step := step }
+/-- `range16 <ip4>/<len>`: the same network handed to AddAllowedRange with its IPv4 address in the 16-byte
+    (`::ffff:a.b.c.d`) form that net.ParseIP / net.IPv4 / IP.To16 produce and a 32-bit mask — the manager must
+    normalise it (`To4`), so the model and the specification are those of `range`.
+    `range16m <ip4>/<len>`: 16-byte address AND a 128-bit mask (`96+len`): `Mask.Size()` reports 128 bits, refused. -/
+def stepN (st : St) (toks : List String) (impl : String) : St × LineResult :=
+  match toks with
+  | ["range16", r] => step st ["range", r] impl
+  | ["range16m", r] =>
+    match r.splitOn "/" with
+    | [a, l] =>
+      match parseHexBytes a, l.toNat? with
+      | some ip, some len =>
+        if ip.length ≠ 4 ∨ len > 32 then (st, { modelObs := "badop" }) else
+        (st, { modelObs := "err IPv4_prefix_mask_required",
+               viols := if impl.startsWith "ok" then
+                 [("binding", "none", s!"AddAllowedRange {hex ip}/{len} with a 128-bit mask accepted")] else [] })
+      | _, _ => (st, { modelObs := "badop" })
+    | _ => (st, { modelObs := "badop" })
+  | _ => step st toks impl
+
+def component : Component := { σ := St, init := {}, step := stepN }
 
 end Bng.Drv.AntispoofDrv
